@@ -12,7 +12,7 @@ use pytest_language_server::FixtureDatabase;
 use serde_json::Value;
 use std::path::PathBuf;
 
-pub const RULE: &str = "proptest-generated edit histories (1-10 steps over 2-10 files: remove/insert/rename items, shift all positions, replace, change only imports, break syntax, resend) on top of a generated workspace; after every prefix the index reached by replaying the prefix on a fresh database is compared (a) exactly with a fresh index that received only each file's latest valid text followed by its current invalid text, in order of last valid analysis, and (b) on all index-derived answers with a fresh index of the latest valid texts only. Non-trivial = the history removes or renames a fixture/usage defined earlier, or contains a break followed by a later valid version of the same file; distinct = distinct (workspace, history) values.";
+pub const RULE: &str = "proptest-generated edit histories (1-10 steps over 2-10 files: remove/insert/rename items, shift all positions, replace, change only imports, break syntax, resend; each optionally preceded by closing the document) on top of a generated workspace; after every prefix the index reached by replaying the prefix on a fresh database is compared (a) exactly with a fresh index that received only each file's latest valid text followed by its current invalid text, in order of last valid analysis, and (b) on all index-derived answers with a fresh index of the latest valid texts only. Non-trivial = the history removes or renames a fixture/usage defined earlier, or contains a break followed by a later valid version of the same file; distinct = distinct (workspace, history) values.";
 pub const ASSUMPTIONS: &[&str] = &[
     "the prefix is replayed without intermediate queries (cache staleness is C07's business)",
     "the fresh twin analyses files in order of their last valid analysis, so registration order is identical (order sensitivity is C08's business)",
@@ -27,8 +27,12 @@ pub fn cfg() -> GenCfg {
 }
 
 fn replay_into(db: &FixtureDatabase, it: &Interp, upto: usize) {
-    for (fi, text, _) in it.sent.iter().take(upto) {
-        db.analyze_file(PathBuf::from(it.files[*fi].loc.path()), text);
+    for (i, (fi, text, _)) in it.sent.iter().enumerate().take(upto) {
+        let p = PathBuf::from(it.files[*fi].loc.path());
+        if it.closed_before.contains(&i) {
+            db.cleanup_file_cache(&p);
+        }
+        db.analyze_file(p, text);
     }
 }
 
